@@ -74,14 +74,6 @@ Definition lit_value (s : text) : res Z :=
   end.
 
 (* ------------------------------------------------------------------ _parse_constant *)
-Definition text_eqb (a b : text) : bool :=
-  (Nat.eqb (length a) (length b)) && forallb (fun p => N.eqb (fst p) (snd p)) (combine a b).
-Fixpoint lookup (k : text) (env : list (text * Z)) : option Z :=
-  match env with
-  | [] => None
-  | (k', v) :: env' => if text_eqb k k' then Some v else lookup k env'
-  end.
-
 (* env = self._int_constants.  Order of evaluation and of the tests as in the source:
    Constant; unary + and - (operand evaluated inside the branch); known identifier; '[...]' marker
    (partial_length_ok is False for every nested call: FFIError); BinaryOp: left, right, then the
